@@ -416,7 +416,8 @@ def execute(case):
             for tag, h2 in r.get("again", {}).items():
                 stat({"after_clock_jump": "fault_clock_jump", "after_attach": "fault_annotation_attach_detach",
                       "after_detach": "fault_annotation_detach", "after_relocate": "fault_relocate_positions",
-                      "pristine_copy": "pristine_copy_checks"}[tag])
+                      "pristine_copy": "pristine_copy_checks",
+                      "reread_from_own_text": "probe_reread_from_own_text"}[tag])
                 if h2 != r["hash"] and viol is None:
                     viol = {"class": "C20/split", "detail": {"kind": tag, "build": _brief(b),
                                                               "hash_before": r["hash"], "hash_after": h2}}
